@@ -1,5 +1,6 @@
 import Tv.GenMap
 import Tv.Thm.C14
+import Mathlib.Tactic.SplitIfs
 set_option linter.unusedSimpArgs false
 set_option linter.unusedVariables false
 /-!
@@ -140,4 +141,170 @@ theorem vsorted_unique_idx_first_spec (xs : List (Option Int)) (h : NoNullGap xs
 theorem vsorted_unique_spec (xs : List (Option Int)) (h : NoNullGap xs) :
     GenMap.vsorted_unique.run (castL xs) = castL (Spec.runValues xs) := by
   rw [vsorted_unique_eq, C14.unique_vals xs h]
+
+/-! ## `vcut` -/
+
+/-- an item of the model as the regenerated code yields it: `Ok(label)`, `Ok(null)`, `Err` -/
+def itemOut : Item (Option Rat) → Option (Option Rat)
+  | .label l => some l
+  | .null => some none
+  | .outside => none
+
+def castI (l : List Int) : List Rat := l.map fun (a : Int) => (a : Rat)
+def castP (b : Int × Int) : Rat × Rat := ((b.1 : Rat), (b.2 : Rat))
+
+theorem windows_cast (E : List Int) : Gen.windows (castI E) = (C14.windows E).map castP := by
+  induction E with
+  | nil => rfl
+  | cons a t ih =>
+    cases t with
+    | nil => rfl
+    | cons b t =>
+      have : castI (a :: b :: t) = (a : Rat) :: castI (b :: t) := rfl
+      rw [this]
+      have h2 : castI (b :: t) = (b : Rat) :: castI t := rfl
+      rw [h2, Gen.windows, ← h2, ih]
+      simp [C14.windows, castP]
+
+/-- the `for … { if test { out = Some(label); break; } }` loop of the regenerated closure, for any
+generated loop body `F` that satisfies the equation of the source, is the model's `firstMatch` -/
+theorem foldBreak_firstMatch (test : Nat → Int × Int → Bool)
+    (F : Option (Option Rat) × Bool → Nat × ((Rat × Rat) × Option Rat) → Option (Option Rat) × Bool)
+    (hF : ∀ out brk i b l, F (out, brk) (i, (castP b, l)) =
+      if brk then (out, brk) else if test i b then (some l, true) else (out, brk)) :
+    ∀ (L : List ((Int × Int) × Option Rat)) (k : Nat),
+      (List.foldl F (none, false) ((List.range' k L.length).zip (L.map fun p => (castP p.1, p.2)))).1
+        = firstMatch test k L := by
+  have hdone : ∀ (L : List (Nat × ((Int × Int) × Option Rat))) (o : Option (Option Rat)),
+      List.foldl F (o, true) (L.map fun q => (q.1, (castP q.2.1, q.2.2))) = (o, true) := by
+    intro L
+    induction L with
+    | nil => intro o; rfl
+    | cons q L ih =>
+      intro o
+      obtain ⟨i, b, l⟩ := q
+      simp only [List.map_cons, List.foldl_cons, hF, if_true]
+      exact ih o
+  intro L
+  induction L with
+  | nil => intro k; rfl
+  | cons p L ih =>
+    intro k
+    obtain ⟨b, l⟩ := p
+    simp only [List.length_cons, List.range'_succ, List.map_cons, List.zip_cons_cons, List.foldl_cons, hF,
+      Bool.false_eq_true, if_false, firstMatch]
+    by_cases ht : test k b = true
+    · simp only [ht, if_true]
+      have := hdone ((List.range' (k + 1) L.length).zip L) (some l)
+      have e : ((List.range' (k + 1) L.length).zip L).map (fun q => (q.1, (castP q.2.1, q.2.2)))
+          = (List.range' (k + 1) L.length).zip (L.map fun p => (castP p.1, p.2)) := by
+        rw [List.zip_map_right]
+        simp [List.map_map, Function.comp_def]
+      rw [e] at this
+      rw [this]
+    · simp only [ht, if_false, Bool.false_eq_true]
+      exact ih (k + 1)
+
+theorem edges_cast (MIN MAX : Int) (bins : List Int) :
+    ([(MIN : Rat)] ++ castI bins) ++ [(MAX : Rat)] = castI (MIN :: (bins ++ [MAX])) := by
+  simp [castI]
+
+/-- one element of the regenerated closure against the model's `cutItem` -/
+theorem cut_item (right ab : Bool) (E : List Int) (labels : List (Option Rat)) (v : Option Int)
+    (G : Option Rat → Option (Option Rat))
+    (hG : ∀ v : Option Int, G (castE v) =
+      match v with
+      | none => some none
+      | some x => firstMatch (binTest right ab (E.length - 2) x) 0 ((C14.windows E).zip labels)) :
+    G (castE v) = itemOut (cutItem (binTest right ab (E.length - 2)) E labels v) := by
+  rw [hG]
+  cases v with
+  | none => rfl
+  | some x =>
+    simp only [cutItem]
+    cases firstMatch (binTest right ab (E.length - 2) x) 0 ((C14.windows E).zip labels) <;> rfl
+
+theorem enumerate_eq' {α : Type} (l : List α) : Gen.enumerate l = (List.range' 0 l.length).zip l := by
+  simp [Gen.enumerate, List.range_eq_range']
+
+theorem cut_map (right ab : Bool) (E : List Int) (labels : List (Option Rat)) (xs : List (Option Int))
+    (G : Option Rat → Option (Option Rat))
+    (hG : ∀ v : Option Int, G (castE v) =
+      match v with
+      | none => some none
+      | some x => firstMatch (binTest right ab (E.length - 2) x) 0 ((C14.windows E).zip labels)) :
+    List.map G (castL xs) = List.map itemOut (List.map (cutItem (binTest right ab (E.length - 2)) E labels) xs) := by
+  unfold castL
+  rw [List.map_map, List.map_map]
+  apply List.map_congr_left
+  intro v _
+  exact cut_item right ab E labels v G hG
+
+/-- the generated loop over `enumerate(zip(windows(edges), labels))` -/
+theorem cut_loop (test : Nat → Int × Int → Bool) (E : List Int) (labels : List (Option Rat))
+    (F : Option (Option Rat) × Bool → Nat × ((Rat × Rat) × Option Rat) → Option (Option Rat) × Bool)
+    (hF : ∀ out brk i b l, F (out, brk) (i, (castP b, l)) =
+      if brk then (out, brk) else if test i b then (some l, true) else (out, brk)) :
+    (List.foldl F (none, false) (Gen.enumerate ((Gen.windows (castI E)).zip labels))).1
+      = firstMatch test 0 ((C14.windows E).zip labels) := by
+  rw [enumerate_eq', windows_cast]
+  have e : ((C14.windows E).map castP).zip labels = ((C14.windows E).zip labels).map fun p => (castP p.1, p.2) := by
+    rw [List.zip_map_left]; rfl
+  rw [e]
+  have hlen : (((C14.windows E).zip labels).map fun p => (castP p.1, p.2)).length = ((C14.windows E).zip labels).length := by
+    simp
+  rw [hlen]
+  exact foldBreak_firstMatch test F hF _ 0
+
+theorem vcut_eq (MIN MAX : Int) (xs : List (Option Int)) (bins : List Int) (labels : List (Option Rat))
+    (right ab : Bool) :
+    GenMap.vcut.run (castL xs) MIN MAX (castI bins) labels right ab =
+      (C14.vcut MIN MAX xs bins labels right ab).map fun l => l.map itemOut := by
+  unfold GenMap.vcut.run C14.vcut edgesOf
+  have hl : (castI bins).length = bins.length := by simp [castI]
+  have hl2 : ∀ E : List Int, (castI E).length = E.length := by intro E; simp [castI]
+  cases ab <;> cases right <;> simp only [hl, decide_eq_true_eq, Bool.false_eq_true, if_false, if_true, edges_cast]
+  all_goals (
+    split_ifs with hc
+    · rfl
+    · simp only [Option.map_some]
+      refine congrArg some (cut_map _ _ _ labels xs _ (fun v => ?_))
+      cases v with
+      | none => rfl
+      | some x =>
+        simp only [castE, Option.map_some, hl2]
+        refine cut_loop _ _ labels _ (fun out brk i b l => ?_)
+        obtain ⟨b1, b2⟩ := b
+        cases brk
+        · simp only [castP, binTest, Rat.intCast_lt_intCast, Rat.intCast_le_intCast]
+          by_cases h1 : i = 0 <;> by_cases h3 : b1 < x <;> by_cases h4 : x ≤ b2 <;>
+            by_cases h5 : b1 ≤ x <;> by_cases h6 : x < b2 <;> simp [h1, h3, h4, h5, h6]
+        · simp)
+
+/-- a specification outcome as the regenerated code yields it (`Ok(label)`, `Ok(null)`, `Err`) -/
+def outOf : Spec.Outcome (Option Rat) → Option (Option Rat)
+  | .label l => some l
+  | .null => some none
+  | .outside => none
+  | .ambiguous => none
+
+/-- the regenerated `vcut` on ascending edges is the from-scratch specification (the label of the
+unique enclosing interval, `Err` outside, the null label on a null), every input, both closure
+sides, both bound modes -/
+theorem vcut_spec (MIN MAX : Int) (xs : List (Option Int)) (bins : List Int) (hasc : Ascending bins)
+    (labels : List (Option Rat)) (right ab : Bool) :
+    GenMap.vcut.run (castL xs) MIN MAX (castI bins) labels right ab
+      = (Spec.cut xs bins labels right ab).map (·.map outOf) := by
+  rw [vcut_eq, ← C14.cut_eq_spec MIN MAX xs bins hasc labels right ab]
+  cases C14.vcut MIN MAX xs bins labels right ab with
+  | none => rfl
+  | some l =>
+    simp only [Option.map_some, List.map_map]
+    congr 1
+    apply List.map_congr_left
+    intro it _
+    cases it <;> rfl
+
+theorem vcut_present : "vcut" ∈ GenMap.functions ∧ GenMap.vcut.parsed = true := by
+  simp [GenMap.functions, GenMap.vcut.parsed]
 end Tv.C14Gen
